@@ -61,8 +61,9 @@ PROPS = {
     },
     "C03": {
         "level": "proof",
-        "lean_modules": ["Astria.Ledger.Model", "Astria.Ledger.Conservation", "Astria.Ledger.Theorems", "Astria.Properties.C03"],
-        "theorems": ["Astria.C03_nonce_gate", "Astria.C03_no_replay", "Astria.C03_atomic", "Astria.C03_nonce_overflow"],
+        "lean_modules": ["Astria.Ledger.Model", "Astria.Ledger.Conservation", "Astria.Ledger.Theorems", "Astria.Ledger.Escrow",
+                         "Astria.Ledger.History", "Astria.Properties.C03"],
+        "theorems": ["Astria.C03_nonce_gate", "Astria.C03_no_replay", "Astria.C03_no_replay_history", "Astria.C03_atomic", "Astria.C03_nonce_overflow"],
         "harnesses": ["ledger"],
         "monitors": ["failed_tx_no_effect", "nonce_gate", "dump_parse"],
         "scope_regex": r"^ledger (tx|ctor|exec) ",
